@@ -29,7 +29,8 @@ RULE = (
     'predicates with and/or/not over one or several tables, equality and inequality join conditions, self-joins through '
     'named references, nested queries and set operations, IsNull/NotNull, grouping, ordering, limit) x generated table '
     'contents (0-6 rows, empty tables, NULLs, NULL-producing outer joins). Non-trivial: some table scan is offered a '
-    'row filter or a strict subset of its columns. Distinct = distinct spec digest.'
+    'row filter or a strict subset of its columns. Distinct = distinct spec digest. Plus five hand-made statements in which '
+    'one scan is offered a safe and an unsafe factor at once (the disjunction is safe, a tighter combination is not).'
 )
 ASSUMPTIONS = [
     'the metamorphic part uses alchemy.Parser with the Not and Abs entries of its expression map repaired (C06 findings), '
@@ -308,9 +309,47 @@ def campaigns(ctx):
     ]
 
 
+_DATA = {
+    'A': [{'id': 1, 'x': 1, 'f': 0.5, 's': 'a', 'b': True, 'd': '2020-01-01', 't': '2020-01-01T00:00:00'},
+          {'id': 2, 'x': 2, 'f': 1.5, 's': 'b', 'b': False, 'd': '2021-06-15', 't': '2021-06-15T12:30:00'},
+          {'id': 3, 'x': 3, 'f': -1.0, 's': 'x', 'b': True, 'd': '2019-12-31', 't': '2020-01-01T00:00:01'}],
+    'B': [{'id': 1, 'a': 1, 'y': 0.5, 's': 'a'}, {'id': 2, 'a': 1, 'y': 2.0, 's': 'b'}, {'id': 3, 'a': 3, 'y': -1.0, 's': 'x'}],
+    'C': [{'id': 1, 'b': 1, 'z': 0}, {'id': 2, 'b': 2, 'z': 3}, {'id': 3, 'b': 3, 'z': 1}],
+    'D': [{'id': 1, 'value': 2}],
+}
+
+
+def directed_cases() -> list:
+    """Hand-made shapes in which one table scan is offered *two* factors, a safe one and one that a known defect makes
+    unsafe: the offered disjunction is safe, any tighter combination is not (rare in the random campaigns)."""
+    col, lit, cmp = A.col, A.lit, A.cmp
+    eq_ab = cmp('eq', col('A', 'id'), col('B', 'a'))
+    eq_cb = cmp('eq', col('C', 'b'), col('B', 'id'))
+    stmts = [
+        # where-factor (safe) + ON-factor on the preserved side of an outer join
+        A.query(A.join(A.table('A'), A.table('B'), 'left', A.and_(cmp('gt', col('A', 'x'), lit(1)), eq_ab)),
+                [col('A', 'id'), col('B', 'id')], where=cmp('gt', col('A', 'f'), lit(0.0))),
+        A.query(A.join(A.table('B'), A.table('A'), 'right', A.and_(cmp('gt', col('A', 'x'), lit(2)), eq_ab)),
+                [col('A', 'id'), col('B', 'y')], where=cmp('lt', col('A', 'id'), lit(3))),
+        A.query(A.join(A.table('A'), A.table('B'), 'full', A.and_(cmp('gt', col('A', 'x'), lit(1)), eq_ab)),
+                [col('A', 'id'), col('B', 'id')], where=A.unary('notnull', col('A', 's'))),
+        # ON-factor on the NULL-supplying side (safe) + negated where-factor
+        A.query(A.join(A.table('C'), A.table('B'), 'inner', A.and_(cmp('ge', col('B', 'y'), lit(0.0)), eq_cb)),
+                [col('C', 'id'), col('B', 'a')], where=A.not_(cmp('gt', col('B', 'a'), lit(2)))),
+        # ON-factor of an inner join (safe) + one-sided disjunction in the where-condition
+        A.query(A.join(A.table('C'), A.table('B'), 'inner', A.and_(cmp('ge', col('B', 'y'), lit(0.0)), eq_cb)),
+                [col('C', 'id'), col('B', 'a')], where=A.or_(cmp('gt', col('B', 'a'), lit(2)), cmp('gt', col('C', 'z'), col('B', 'a')))),
+    ]
+    return [{'stmt': s, 'data': _DATA} for s in stmts]
+
+
 def enumerate_extra(ctx, shard, nshards):
     for k, v in sorted(_EXCLUDED.items()):
         ctx.extra[f'clean_excluded:{k}'] = v
+    if shard == 0:
+        ctx.campaign = 'hints'
+        for spec in directed_cases():
+            check_hints(ctx, spec)
 
 
 LEVEL_TEXT = (
